@@ -132,25 +132,44 @@ theorem entryWord_eq (c : Compiled)
           simp [hvpn, conv]
 
 theorem ssOf_chunks : ∀ (mos : List (MethodC × MethodOut)) (mi : Nat) (acc : List (List Nat)) (st : SlotSt) (post : List Nat),
-    (∀ mo ∈ mos, 1 ≤ mo.1.vp.length ∧ mo.2.strides.length = mo.1.vp.length - 1) →
+    (∀ mo ∈ mos, 1 ≤ mo.1.vp.length ∧ mo.2.strides.length = mo.1.vp.length - 1 ∧ mo.2.nexts.length = mo.1.specs.length) →
     ((mos.map (fun mo => (mo.1.vp.length, mo.1.specs.length))).foldl
       (fun (acc : List (List Nat) × List Nat) (m : Nat × Nat) =>
         let n := 2 * m.1 - 1
-        (acc.1 ++ [acc.2.take n], acc.2.drop n))
+        (acc.1 ++ [acc.2.take n], acc.2.drop (n + m.2)))
       (acc, (List.zipIdx mos mi).flatMap (fun (x : (MethodC × MethodOut) × Nat) =>
-        slotsOf st x.2 x.1.1.vp.length ++ x.1.2.strides) ++ post)).1 =
+        slotsOf st x.2 x.1.1.vp.length ++ x.1.2.strides ++ x.1.2.nexts.map (cellIndex x.1.1.specs.length)) ++ post)).1 =
     acc ++ (List.zipIdx mos mi).map (fun (x : (MethodC × MethodOut) × Nat) =>
       if x.1.1.vp.length == 1 then [st.slots (x.2, 0)] else slotsOf st x.2 x.1.1.vp.length ++ x.1.2.strides)
   | [], _, acc, _, _, _ => by simp
   | (m, o) :: rest, mi, acc, st, post, h => by
-    obtain ⟨h1, h2⟩ := h (m, o) (by simp)
+    obtain ⟨h1, h2, h3⟩ := h (m, o) (by simp)
     simp only [List.map_cons, List.foldl_cons, List.zipIdx_cons, List.flatMap_cons]
     have hchunk : (slotsOf st mi m.vp.length ++ o.strides).length = 2 * m.vp.length - 1 := by
       simp only [List.length_append, slotsOf, List.length_map, List.length_range]
       simp only at h2
       omega
-    rw [List.append_assoc, List.take_append_of_le_length (by omega), List.drop_append_of_le_length (by omega)]
-    rw [List.take_of_length_le (by omega), List.drop_of_length_le (by omega), List.nil_append]
+    have hnl : (o.nexts.map (cellIndex m.specs.length)).length = m.specs.length := by
+      simp only [List.length_map]; exact h3
+    -- the chunk of this method is `(slots ++ strides) ++ nexts`; the rest follows
+    have htake : ((slotsOf st mi m.vp.length ++ o.strides ++ o.nexts.map (cellIndex m.specs.length)) ++
+        ((List.zipIdx rest (mi + 1)).flatMap (fun (x : (MethodC × MethodOut) × Nat) =>
+          slotsOf st x.2 x.1.1.vp.length ++ x.1.2.strides ++ x.1.2.nexts.map (cellIndex x.1.1.specs.length))) ++ post).take
+        (2 * m.vp.length - 1) = slotsOf st mi m.vp.length ++ o.strides := by
+      rw [List.append_assoc, List.append_assoc, List.take_append_of_le_length (by omega),
+        List.take_of_length_le (by omega)]
+    have hdrop : ((slotsOf st mi m.vp.length ++ o.strides ++ o.nexts.map (cellIndex m.specs.length)) ++
+        ((List.zipIdx rest (mi + 1)).flatMap (fun (x : (MethodC × MethodOut) × Nat) =>
+          slotsOf st x.2 x.1.1.vp.length ++ x.1.2.strides ++ x.1.2.nexts.map (cellIndex x.1.1.specs.length))) ++ post).drop
+        (2 * m.vp.length - 1 + m.specs.length) =
+        ((List.zipIdx rest (mi + 1)).flatMap (fun (x : (MethodC × MethodOut) × Nat) =>
+          slotsOf st x.2 x.1.1.vp.length ++ x.1.2.strides ++ x.1.2.nexts.map (cellIndex x.1.1.specs.length))) ++ post := by
+      rw [List.append_assoc]
+      have hl : (slotsOf st mi m.vp.length ++ o.strides ++ o.nexts.map (cellIndex m.specs.length)).length =
+          2 * m.vp.length - 1 + m.specs.length := by
+        rw [List.length_append, hchunk, hnl]
+      rw [← hl, List.drop_left]
+    rw [htake, hdrop]
     rw [ssOf_chunks rest (mi + 1) _ st post (fun mo hmo => h mo (by simp [hmo]))]
     simp only [List.append_assoc, List.singleton_append]
     congr 2
@@ -186,6 +205,7 @@ theorem decode_encode_eq_install (c : Compiled) (inst : Installed) (hinst : inst
     (hlen : c.methods.length = c.outs.length)
     (har : ∀ m ∈ c.methods, 1 ≤ m.vp.length)
     (hstr : ∀ mo ∈ c.methods.zip c.outs, mo.2.strides.length = mo.1.vp.length - 1)
+    (hnx : ∀ mo ∈ c.methods.zip c.outs, mo.2.nexts.length = mo.1.specs.length)
     (htab : ∀ mo ∈ c.methods.zip c.outs, TableGood mo)
     (hgood : ∀ row ∈ c.vtbl, ∀ e ∈ row, EntryGood c (dtStarts (c.methods.zip c.outs) 0) e ∧ e.vp < arOf c e.method)
     (hfirst : ∀ k, k < c.vtbl.length → c.slots.first.get k < stopBit) :
@@ -250,10 +270,10 @@ theorem decode_encode_eq_install (c : Compiled) (inst : Installed) (hinst : inst
       unfold ssOf
       rw [msOf_eq_zip c (Nat.le_of_eq hlen)]
       have := ssOf_chunks (c.methods.zip c.outs) 0 [] c.slots []
-        (fun mo hmo => ⟨harz mo hmo, hstr mo hmo⟩)
+        (fun mo hmo => ⟨harz mo hmo, hstr mo hmo, hnx mo hmo⟩)
       simp only [List.append_nil, List.nil_append] at this
       have hsl : (encode c).slots = (List.zipIdx (c.methods.zip c.outs) 0).flatMap (fun (x : (MethodC × MethodOut) × Nat) =>
-          slotsOf c.slots x.2 x.1.1.vp.length ++ x.1.2.strides) := rfl
+          slotsOf c.slots x.2 x.1.1.vp.length ++ x.1.2.strides ++ x.1.2.nexts.map (cellIndex x.1.1.specs.length)) := rfl
       rw [hsl, this]
 
 end Yomm2.RoundTrip
